@@ -38,7 +38,9 @@ RULE = ("programs of the core language, structured profile (with-blocks, start_t
         "MemoryLogger; per program: of_type for every action type present and one absent, LoggedMessage.of_type for every message "
         "type and always for the empty type (1 message in 10 is logged untyped), 6-14 assertHasAction / assertHasMessage expectations (matching subsets, perturbed value, missing key, wrong outcome, "
         "absent key expected as None / 0 / empty string / False, present key expected as None, the fields of a later entry of the same type); about 1 logged "
-        "field value in 8 is None; non-trivial = finished log with depth >= 2 and (>= 2 tasks or a type with >= 2 "
+        "field value in 8 is None; in 15% of the programs one or two actions are started explicitly and never finished (the log a "
+        "test sees while an action is running); type arguments alternate between names and ActionType / MessageType objects, empty "
+        "expectations between {}, None and the default; non-trivial = log with depth >= 2 and (>= 2 tasks or a type with >= 2 "
         "entries); distinct by canonical hash of the program")
 TRUSTED = ["harness/sysgen.py + harness/sysinterp.py (program generator and interpreter against the real API)",
            "field values are compared by the model through an injective rendering; the expectations generated here only use values "
@@ -48,8 +50,11 @@ ASSUMPTIONS = ["theorems: every action of the log is finished (the log is the se
                "one-message tasks, distinct uuids). Pre-order / level-order statements: per task the messages appear in level order "
                "(Interleaving). When a remote continuation is logged after later siblings of its reserved position (about 1 program in "
                "10 here) only of_type_any_order applies: children ordered by emission, the parser's tree up to child order; the oracle "
-               "orders the parser's children by emission for exactly this reason. Logs with an unfinished action (of_type raises "
-               "ValueError) are compared with the model only",
+               "orders the parser's children by emission for exactly this reason",
+               "unfinished actions: for a type one of whose actions (or a descendant of one) has no end message, of_type raises "
+               "ValueError for the whole call instead of returning the finished ones - recorded as a known finding (KNOWN_FINDINGS.jsonl, "
+               "printed as KNOWN-FINDING); on such a log every other type, LoggedMessage.of_type and the assert helpers on other types "
+               "are judged as usual, and the model (which has the same error branch) is compared on everything",
                "(task_uuid, task_level) identifies a message of one logger (C02)"]
 EXPLANATION = ("theorems over a list-scan model of eliot/testing.py related to the spec trees of the parser proofs (C09); model tied to "
                "the code by comparing every helper's result on logs of generated programs")
@@ -57,6 +62,7 @@ EXPLANATION = ("theorems over a list-scan model of eliot/testing.py related to t
 PROFILE = dict(p_handles=0.0, p_ser_fail=0.0, p_missing_field=0.0, p_dest_fail=0.0, p_remote=0.45, p_task=0.15, p_raise=0.3,
                p_probe=0.0, p_globals=0.0, p_remove=0.0, max_stmts=20, n_dests=(1, 1))
 
+UNFINISHED_KEY = {"helper": "LoggedAction.of_type", "log": "contains-unfinished-action-of-type-or-descendant"}
 ERR_MODEL = {"PM.Testing.Err.missingStart": "missingStart", "PM.Testing.Err.missingEnd": "missingEnd",
              "PM.Testing.Err.keyError": "keyError", "PM.Testing.Err.fuel": "fuel"}
 
@@ -142,9 +148,35 @@ def untyped_messages(rng, prog):
                 untyped_messages(rng, s[k])
 
 
+def leave_open(rng, prog):
+    """Turn one or two `with start_action(...)` blocks into an explicit start that is never finished
+    (`a = start_action(...)`; `with a.context(): body`): the log is then what a test sees that inspects the logger while
+    an action is still running, or after an action was started and never finished."""
+    for n in range(rng.randint(1, 2)):
+        places = []
+
+        def walk(block):
+            for i, s in enumerate(block):
+                if s["op"] == "with":
+                    places.append((block, i))
+                for k in ("body", "handler"):
+                    if k in s:
+                        walk(s[k])
+
+        walk(prog)
+        if not places:
+            return
+        block, i = rng.choice(places)
+        s = block[i]
+        x = 1000 + n
+        block[i:i + 1] = [dict(op="startAs", x=x, task=s["task"], spec=s["spec"]), dict(op="inContext", x=x, body=s["body"])]
+
+
 def gen_program(rng):
     case = sysgen.gen_case(rng, PROFILE)
     untyped_messages(rng, case["prog"])
+    if rng.random() < 0.15:
+        leave_open(rng, case["prog"])
     repeat_types(case["prog"])
     none_values(rng, case["prog"])
     wide = rng.random() < 1 / 6
@@ -238,6 +270,15 @@ def classify(e):
     return "other:" + type(e).__name__
 
 
+def as_type(t, n, action):
+    """The type argument of the helpers: the name, or (odd n) an ActionType / MessageType object with that name."""
+    if n % 2 == 0:
+        return t
+    import eliot
+
+    return eliot.ActionType(t, [], [], "") if action else eliot.MessageType(t, [], "")
+
+
 def observe(msgs):
     """Everything the helpers say about `msgs`, as plain data (same shape as the Lean driver)."""
     from eliot.testing import LoggedAction, LoggedMessage
@@ -261,9 +302,10 @@ def observe(msgs):
     # the empty type is always queried: a dictionary without message_type is not a message of type ""
     mtypes = sorted({m.get("message_type") for m in msgs if isinstance(m.get("message_type"), str)} | {""}) + ["app:absent"]
     of_type = {}
-    for t in atypes:
+    for n, t in enumerate(atypes):
         try:
-            entries = LoggedAction.of_type(msgs, t)
+            # every other type is asked for through an ActionType object instead of its name
+            entries = LoggedAction.of_type(msgs, as_type(t, n, True))
             out = []
             for a in entries:
                 d = item(a)
@@ -280,9 +322,9 @@ def observe(msgs):
         except Exception as e:  # noqa
             of_type[t] = {"err": classify(e)}
     lm = {}
-    for t in mtypes:
+    for n, t in enumerate(mtypes):
         try:
-            lm[t] = [body(x.message) for x in LoggedMessage.of_type(msgs, t)]
+            lm[t] = [body(x.message) for x in LoggedMessage.of_type(msgs, as_type(t, n, False))]
         except Exception as e:  # noqa
             lm[t] = {"err": classify(e)}
     return atypes, mtypes, of_type, lm, head
@@ -311,13 +353,24 @@ def run_asserts(mem, asserts, head):
     from eliot.testing import assertHasAction, assertHasMessage
 
     out = []
-    for a in asserts:
+    for n, a in enumerate(asserts):
         tc = Probe()
         try:
+            # the type as a name or as a type object; empty expectations as {} / None / left out (the defaults)
             if a["k"] == "action":
-                r = assertHasAction(tc, mem, a["ty"], a["succ"], dict(a["start"]), dict(a["end"]))
+                kw = {}
+                for name, d in (("startFields", a["start"]), ("endFields", a["end"])):
+                    if d or n % 3 == 0:
+                        kw[name] = dict(d)
+                    elif n % 3 == 1:
+                        kw[name] = None
+                r = assertHasAction(tc, mem, as_type(a["ty"], n // 2, True), a["succ"], **kw)
+            elif a["fields"] or n % 3 == 0:
+                r = assertHasMessage(tc, mem, as_type(a["ty"], n // 2, False), dict(a["fields"]))
+            elif n % 3 == 1:
+                r = assertHasMessage(tc, mem, as_type(a["ty"], n // 2, False), None)
             else:
-                r = assertHasMessage(tc, mem, a["ty"], dict(a["fields"]))
+                r = assertHasMessage(tc, mem, as_type(a["ty"], n // 2, False))
             out.append({"ok": head(r)})
         except AssertionError:
             stages = ["noneOfType", "wrongStatus", "startFields", "endFields"] if a["k"] == "action" else ["noneOfType", "fields"]
@@ -349,6 +402,7 @@ class Reference:
         self.tasks = list(Parser.parse_stream(msgs))
         self.actions = []  # (start index, node) of every action with a start message
         self.unfinished = False
+        self.open = {}  # id(node) -> the sub-tree contains an action without start or end message
         self.level_order_differs = False
         for t in self.tasks:
             self.walk(t.root())
@@ -362,13 +416,20 @@ class Reference:
         return self.ix(n)
 
     def walk(self, n):
-        if isinstance(n, self.WA):
-            if n.start_message is None or n.end_message is None:
-                self.unfinished = True
-            if n.start_message is not None:
-                self.actions.append((self.ix(n.start_message), n))
-            for c in n.children:
-                self.walk(c)
+        if not isinstance(n, self.WA):
+            return False
+        op = n.start_message is None or n.end_message is None
+        if n.start_message is not None:
+            self.actions.append((self.ix(n.start_message), n))
+        for c in n.children:
+            op = self.walk(c) or op
+        self.open[id(n)] = op
+        self.unfinished = self.unfinished or op
+        return op
+
+    def tainted(self, t):
+        """Some action of type `t` is unfinished or has an unfinished descendant."""
+        return any(self.open[id(n)] for i, n in self.actions if self.msgs[i].get("action_type") == t)
 
     def kids(self, n):
         ks = [(self.first(c), c) for c in n.children]
@@ -404,9 +465,10 @@ class Reference:
         return {self.msgs[self.ix(n.start_message)]["action_type"]: out}
 
     def of_type(self, t):
+        """Entries for the actions of type `t` whose whole sub-tree is finished, in emission order."""
         out = []
         for i, n in sorted(self.actions, key=lambda p: p[0]):
-            if self.msgs[i].get("action_type") == t:
+            if self.msgs[i].get("action_type") == t and not self.open[id(n)]:
                 d = self.item(n)
                 d["desc"] = self.desc(n)
                 d["tt"] = self.type_tree(n)
@@ -516,6 +578,8 @@ def expected_assert(ref, msgs, a):
     starts = [i for i, m in enumerate(msgs) if m.get("action_type") == a["ty"] and m.get("action_status") == "started"]
     if not starts:
         return False
+    if ref.tainted(a["ty"]):
+        return None  # of_type raises for the whole type (known finding, judged in `oracles`)
     n = ref.node_of_start(starts[0])
     if n is None or n.end_message is None:
         return None
@@ -565,11 +629,7 @@ def oracles(ctx, case, r):
     if ref.ambiguous:
         ctx.count("oracle:ambiguous-place")
         return ["ambiguous-place"]
-    tags = []
-    if ref.unfinished:
-        # an action without end message: of_type of its type (or of an ancestor's type) raises; the statement is about
-        # started-and-finished actions, so only the model comparison applies to this log
-        return ["unfinished"]
+    tags = ["unfinished"] if ref.unfinished else []
     for t in r["atypes"]:
         try:
             exp = ref.of_type(t)
@@ -577,6 +637,27 @@ def oracles(ctx, case, r):
             ctx.count("oracle:reference-raised:" + type(e).__name__)
             return ["reference-raised"]
         got = r["of_type"][t]
+        if ref.tainted(t):
+            # Some action of the type (or a descendant of one) has no end message.  The statement promises one entry per
+            # started-and-finished action; the code raises ValueError for the whole call.  Only this type is affected: the
+            # other types, LoggedMessage.of_type and the assert helpers on other types are judged as usual below.
+            tags.append("unfinished-type")
+            ctx.count("of_type on a type with an unfinished action: " + ("raises" if "err" in got else "returns"))
+            if got.get("err") == "missingEnd":
+                ctx.violation("LoggedAction.of_type(%r) raises ValueError('Missing end message') for the whole call because one action of "
+                              "that type, or a descendant of one, is not finished; the %d finished action(s) of the type are not returned"
+                              % (t, len(exp)), rcase, key=UNFINISHED_KEY)
+            elif "err" in got:
+                ctx.violation("LoggedAction.of_type(%r) raised %s on a log with an unfinished action" % (t, got["err"]), rcase,
+                              key=dict(oracle="of_type-raises", err=got["err"]))
+                return tags
+            else:
+                done = {e["s"] for e in exp}
+                if [e for e in got["ok"] if e.get("s") in done] != exp:
+                    ctx.violation("LoggedAction.of_type(%r) does not list the finished actions of the type (sub-tree finished too) as the "
+                                  "parser's tree has them" % t, rcase, key=dict(oracle="of_type-vs-parser", what="finished entries"))
+                    return tags
+            continue
         if "err" in got:
             ctx.violation("LoggedAction.of_type(%r) raised %s on a log in which every action is finished" % (t, got["err"]), rcase,
                           key=dict(oracle="of_type-raises", err=got["err"]))
@@ -681,8 +762,7 @@ def run(ctx):
         tags = oracles(ctx, case, r)
         ntasks = len({m.get("task_uuid") for m in msgs})
         depth = depth_of(msgs)
-        finished = "unfinished" not in tags and "parser-raised" not in tags
-        nontriv = finished and depth >= 2 and (ntasks >= 2 or "repeated-type" in tags)
+        nontriv = "parser-raised" not in tags and depth >= 2 and (ntasks >= 2 or "repeated-type" in tags)
         failed = any(m.get("action_status") == "failed" for m in msgs)
         remote = any(m.get("action_type") == "eliot:remote_task" for m in msgs)
         nested_same = False
